@@ -124,7 +124,7 @@ class C15(core.Check):
     prop = "C15"
     flavours = ["asan", "plain"]   # plain: only to confirm CPU-bound overruns seen under ASan
     rule = ("zstd files (3-6 small chunks; and manual chunks of 0.3-4 MB, beyond what the automatic chunker produces, with/without dictionary, with/without uncompressed-source flag) x single-bit flips of body bytes "
-            "(sampled in quick, every bit of every body byte in thorough) x read sizes {1,100,chunk-1,chunk,chunk+1,32768}; after the first "
+            "(40 per file in quick, 2 500 per file in thorough - every bit when the body is smaller than that) x read sizes {1,100,chunk-1,chunk,chunk+1,32768}; after the first "
             "error three more reads are issued; variants: the caller clears the error and keeps reading with small buffers; the file is validated while "
             "intact, then damaged on disk, then read. non-trivial = the corrupted chunk still decompresses (so only the checksum can stop it)")
     assumptions = ["chunk table taken from the unmodified header (only body bytes are flipped)"]
@@ -179,7 +179,10 @@ class C15(core.Check):
                     if c["comp_len"]:
                         flips.append((p.header_len + c["start"] + r.randrange(c["comp_len"]), r.randrange(8)))
             else:
+                # every bit of every body byte for small bodies, otherwise a 2 500-flip sample per file (about 150 000 reads in all)
                 flips = [(x, bit) for x in body for bit in range(8)]
+                if len(flips) > 2500:
+                    flips = r.sample(flips, 2500)
             for pos, bit in flips:
                 k = max([c["number"] for c in p.chunks if p.header_len + c["start"] <= pos] or [1])
                 cl = max(1, p.chunks[max(k, 1)]["len"])
